@@ -70,6 +70,24 @@ def run(tier, replay=None):
         short = {k2: (v2 if not isinstance(v2, list) or len(v2) < 70 else v2[:64]) for k2, v2 in rec.items()}
         key = "%s:%s" % (rec["t"] if rec["t"] != "sweep" else "sweep_%s_m%d_k%d" % (rec["gen"], rec["m"], rec["k"]), b["why"])
         v.violation(key, "%s: %s" % (b["why"], json.dumps(short)[:300]), {"record": rec})
+    # the same pipeline with every kernel family the dispatcher can select (simulated CPU levels; this host alone would only ever run one):
+    # the Cauchy sweeps reach up to 13 parity rows / erasures, i.e. every row-count case of the multi-row encoders
+    cpu_sets = 0
+    if not replay:
+        from props import c16
+        hc = c16.build_shimmed("h_c09_cpu", "h_c09.c")
+        toks2 = []
+        for s4 in [x for x in sw if x[0] == 2 and x[3] == 1 and x[1] <= 14]: toks2 += [4] + list(s4)
+        inp2 = os.path.join(wd, "in2.txt"); open(inp2, "w").write(" ".join(map(str, toks2)))
+        for cpu in ("base", "sse", "avx", "avx2", "avx512", "avx2gfni"):
+            d2, r2 = os.path.join(wd, "c09-%s.ndjson" % cpu), os.path.join(wd, "res-%s.json" % cpu)
+            sh([hc, inp2, d2, str(seed() % 100000 + 1), "997"], timeout=3300, env={"VERIF_CPU": cpu})
+            tlc("trace/TraceC09", wd=wd, env={"VERIF_IN": d2, "VERIF_OUT": r2}, timeout=3000, xmx="8g")
+            o2, rc2 = read_ndjson(r2)[0], read_ndjson(d2)
+            cpu_sets += [x for x in rc2 if x["t"] == "summary"][0]["sets"]
+            for b in o2["bad"]:
+                rec = rc2[b["idx"] - 1]
+                v.violation("cpu %s: sweep_%s_m%d_k%d:%s" % (cpu, rec.get("gen"), rec.get("m", 0), rec.get("k", 0), b["why"]), "under simulated CPU level %s: %s: %s" % (cpu, b["why"], json.dumps(rec)[:300]), {"record": rec, "cpu": cpu})
     # spec-only: minors / survivor sets on the spec itself
     mo = os.path.join(wd, "mc.json")
     mc = tlc("mc/MCErasure", wd=wd, env={"VERIF_OUT": mo, "VERIF_MAXM": 11 if tier == "thorough" else 9}, timeout=3000, xmx="8g")
@@ -80,7 +98,7 @@ def run(tier, replay=None):
     sweeps = [x for x in recs if x["t"] == "sweep"]
     cov = {"evaluations": summ["sets"] + out["invs"] + out["gens"], "distinct_nontrivial": summ["sets"],
            "generator_matrices_checked": out["gens"], "inversions_judged_by_tlc": out["invs"], "singular_inputs_among_them": out["singular_inputs"],
-           "survivor_sets_rebuilt_on_real_code": summ["sets"], "sweeps": len(sweeps), "exhaustive_sweeps": sum(1 for x in sweeps if x["exhaustive"]),
+           "survivor_sets_rebuilt_on_real_code": summ["sets"], "survivor_sets_rebuilt_under_other_cpu_levels": cpu_sets, "sweeps": len(sweeps), "exhaustive_sweeps": sum(1 for x in sweeps if x["exhaustive"]),
            "spec_only": {"module": "spec/mc/MCErasure.tla", "max_m": mr["maxm"], "survivor_sets_checked_on_spec": mr["survivor_sets"]},
            "rule": "generators: gf_gen_rs_matrix/gf_gen_cauchy1_matrix for %d (m,k) pairs compared by TLC with EC!RsMatrix/Cauchy1; inversion: n x n inputs (random, duplicate-row, row=XOR of two rows, zero column, permutation, zero diagonal, "
                    "sparse 0/1; n up to %d) recorded as (in, ret, out): TLC requires ret=0 <=> det#0 (Gauss-Jordan in GF256.tla) and in*out=I; sweep: for each (generator,m,k) every k-subset of survivors "
